@@ -1,4 +1,10 @@
 //! C08 Checkpointing a VM is transparent: serialise, deserialise, continue.
+//!
+//! Differential check: the same `VM<StdLibState>` continued WITHOUT a checkpoint is the reference for
+//! the VM that went through serialise + deserialise (once or twice in one history). Observations:
+//! token-exact output, the fatal error in detail (title, kind, traces, stack, notes), the errors
+//! recorded by the interaction-mode component, and Rust-level sweeps of every visible command
+//! (built-in identity) and of the whole `StdLibState` after the round trip and at the end.
 
 use crate::engine::*;
 use crate::props::c01;
@@ -6,10 +12,17 @@ use crate::texvm::OutTok;
 use proptest::prelude::*;
 use serde::{Deserialize, Serialize};
 use std::cell::RefCell;
-use texlang::token::{self, Token, Value};
+use std::collections::BTreeSet;
+use std::rc::Rc;
+use texlang::command::Command;
+use texlang::error::{self, TracedTexError};
+use texlang::token::{trace::SourceCodeTrace, CommandRef, CsName, Token, Value};
 use texlang::traits::*;
+use texlang::variable::SupportedType;
 use texlang::vm;
 use texlang_stdlib::StdLibState;
+
+type Vm = vm::VM<StdLibState>;
 
 thread_local! {
     static OUT: RefCell<Vec<OutTok>> = const { RefCell::new(vec![]) };
@@ -17,12 +30,16 @@ thread_local! {
 
 struct Capture;
 
-fn to_out(vm: &vm::VM<StdLibState>, t: Token) -> OutTok {
-    match t.value() {
-        Value::CommandRef(token::CommandRef::ControlSequence(name)) => OutTok::Cs(vm.cs_name_interner().resolve(name).unwrap_or("?").to_string()),
-        Value::CommandRef(token::CommandRef::ActiveCharacter(c)) => OutTok::Active(c),
+fn value_out(vm: &Vm, v: Value) -> OutTok {
+    match v {
+        Value::CommandRef(CommandRef::ControlSequence(name)) => OutTok::Cs(vm.cs_name_interner().resolve(name).unwrap_or("?").to_string()),
+        Value::CommandRef(CommandRef::ActiveCharacter(c)) => OutTok::Active(c),
         v => OutTok::Ch(v.char().unwrap(), v.cat_code().map(|c| c as u8).unwrap_or(0)),
     }
+}
+
+fn to_out(vm: &Vm, t: Token) -> OutTok {
+    value_out(vm, t.value())
 }
 
 impl vm::Handlers<StdLibState> for Capture {
@@ -36,19 +53,96 @@ impl vm::Handlers<StdLibState> for Capture {
         OUT.with(|v| v.borrow_mut().push(o));
         Ok(())
     }
+    /// An undefined command met by the main loop is RECORDED (`\undefined:<name>`) and the run goes on, so
+    /// that "this name is undefined again after its group" is an observation instead of the end of the
+    /// run. Names starting with `vpundefined` keep the default behaviour (the deliberate final error).
+    fn undefined_command_handler(input: &mut vm::ExecutionInput<StdLibState>, token: Token) -> texlang::prelude::Result<()> {
+        let name = match to_out(input.vm(), token) {
+            OutTok::Cs(n) => n,
+            OutTok::Active(c) => format!("active {c}"),
+            _ => "?".to_string(),
+        };
+        if name.starts_with("vpundefined") {
+            return Err(input.fatal_error(error::UndefinedCommandError::new(input.vm(), token)));
+        }
+        OUT.with(|v| v.borrow_mut().push(OutTok::Cs(format!("undefined:{name}"))));
+        Ok(())
+    }
 }
 
 #[derive(Debug, Clone, PartialEq, Eq)]
 struct Run {
     out: Vec<OutTok>,
+    /// title of the fatal error that ended the run
     error: Option<String>,
+    /// everything a user sees of that error except the hash-order dependent "did you mean" note
+    detail: Option<String>,
 }
 
-fn run(vm: &mut vm::VM<StdLibState>, name: &str, src: &str) -> Run {
+fn trace_str(t: &SourceCodeTrace) -> String {
+    format!("{:?} line {} col {} value {:?} in {:?}", t.origin, t.line_number, t.index, t.value, t.line_content)
+}
+
+/// Canonical rendering of a traced error: title, kind, the trace of every token involved (sorted: the map
+/// is in hash order), end-of-input trace, stack trace, source annotation, notes. The notes of "undefined
+/// control sequence" are left out: the suggestion is the first of a list in HashMap order.
+fn error_detail(vm: &Vm, e: &TracedTexError) -> String {
+    let tok = |t: Token| crate::texvm::render(&[to_out(vm, t)]);
+    let mut s = format!("title: {}\n", e.error.title());
+    match e.error.kind() {
+        error::Kind::Token(t) => s.push_str(&format!("kind: token {}\n", tok(t))),
+        error::Kind::EndOfInput => s.push_str("kind: end of input\n"),
+        error::Kind::FailedPrecondition => s.push_str("kind: failed precondition\n"),
+    }
+    let mut traces: Vec<String> = e.token_traces.iter().map(|(t, tr)| format!("trace of {}: {}", tok(*t), trace_str(tr))).collect();
+    traces.sort();
+    for t in traces {
+        s.push_str(&t);
+        s.push('\n');
+    }
+    if let Some(t) = &e.end_of_input_trace {
+        s.push_str(&format!("end of input: {}\n", trace_str(t)));
+    }
+    for el in &e.stack_trace {
+        s.push_str(&format!("stack: {:?} {} {}\n", el.context, tok(el.token), trace_str(&el.trace)));
+    }
+    s.push_str(&format!("annotation: {}\n", e.error.source_annotation()));
+    if e.error.title() != "undefined control sequence" {
+        for n in e.error.notes() {
+            match n {
+                error::display::Note::Text(t) => s.push_str(&format!("note: {t}\n")),
+                error::display::Note::SourceCodeTrace(t, k) => s.push_str(&format!("note: {t} {}\n", tok(k))),
+            }
+        }
+    }
+    s
+}
+
+fn run(vm: &mut Vm, name: &str, src: &str) -> Run {
     OUT.with(|v| v.borrow_mut().clear());
     vm.push_source(name.to_string(), src.to_string()).ok();
     let r = vm.run::<Capture>();
-    Run { out: OUT.with(|v| std::mem::take(&mut *v.borrow_mut())), error: r.err().map(|e| e.error.title()) }
+    let out = OUT.with(|v| std::mem::take(&mut *v.borrow_mut()));
+    match r {
+        Ok(()) => Run { out, error: None, detail: None },
+        Err(e) => Run { out, error: Some(e.error.title()), detail: Some(error_detail(vm, &e)) },
+    }
+}
+
+/// The terminal is not part of the serialised VM (`#[serde(skip)]`): the host installs it. Every arm gets
+/// an exhausted mock terminal, so that `\read` from a closed stream is a clean fatal error whose note
+/// tells the interaction mode apart (mock terminal in errorstop/scroll mode, "cannot \read from terminal in
+/// nonstop modes" otherwise) and real stdin is never touched.
+fn install_terminal(vm: &mut Vm) {
+    vm.state.error_mode.set_default_terminal(Rc::new(RefCell::new(texlang_common::MockTerminalIn::default())));
+}
+
+/// A fresh VM with a fixed date (the default one reads the clock, the arms are created at different times).
+fn new_vm() -> Box<Vm> {
+    let mut vm = Box::new(Vm::new());
+    vm.state.time = texlang_stdlib::time::Component::new_with_values(754, 14, 7, 1789);
+    install_terminal(&mut vm);
+    vm
 }
 
 #[derive(Clone, Copy, Debug, PartialEq, Eq, Serialize, Deserialize)]
@@ -58,13 +152,19 @@ pub enum Format {
     Bincode,
 }
 
-fn checkpoint(vm: &vm::VM<StdLibState>, format: Format) -> Result<(vm::VM<StdLibState>, usize), String> {
+/// `via_trait`: JSON through `impl Deserialize for VM<S: HasDefaultBuiltInCommands>` instead of
+/// `deserialize_with_built_in_commands`.
+fn checkpoint(vm: &Vm, format: Format, via_trait: bool) -> Result<(Vm, usize), String> {
     let built_ins = || StdLibState::default_built_in_commands();
     match format {
         Format::Json => {
             let s = serde_json::to_string(vm).map_err(|e| format!("JSON serialisation failed: {e}"))?;
-            let mut d = serde_json::Deserializer::from_str(&s);
-            let vm2 = vm::VM::deserialize_with_built_in_commands(&mut d, built_ins()).map_err(|e| format!("JSON deserialisation failed: {e}"))?;
+            let vm2 = if via_trait {
+                *serde_json::from_str::<Box<Vm>>(&s).map_err(|e| format!("JSON deserialisation (Deserialize for VM) failed: {e}"))?
+            } else {
+                let mut d = serde_json::Deserializer::from_str(&s);
+                vm::VM::deserialize_with_built_in_commands(&mut d, built_ins()).map_err(|e| format!("JSON deserialisation failed: {e}"))?
+            };
             Ok((vm2, s.len()))
         }
         Format::MessagePack => {
@@ -81,7 +181,188 @@ fn checkpoint(vm: &vm::VM<StdLibState>, format: Format) -> Result<(vm::VM<StdLib
     }
 }
 
-/// Extra state P1 may leave behind, each with an observer in P2.
+// ---------------------------------------------------------------------------------------------
+// Rust-level sweeps
+// ---------------------------------------------------------------------------------------------
+
+/// Identity of a command as far as the public API shows it. Function pointers and tags are comparable
+/// because both VMs live in this process.
+fn fingerprint(vm: &Vm, cmd: Option<&Command<StdLibState>>) -> String {
+    let Some(cmd) = cmd else { return "undefined".into() };
+    match cmd {
+        Command::Execution(f, tag) => format!("execution {:#x} {:?}", *f as usize, tag),
+        Command::Expansion(f, tag) => format!("expansion {:#x} {:?}", *f as usize, tag),
+        Command::Variable(v) => {
+            let mut s = String::from("variable");
+            macro_rules! getters {
+                ($t:ty, $n:literal) => {
+                    if let Some((a, b)) = <$t as SupportedType>::try_cast::<StdLibState>(&**v) {
+                        s.push_str(&format!(" {} {:#x} {:#x}", $n, a as usize, b as usize));
+                    }
+                };
+            }
+            getters!(i32, "int");
+            getters!(u8, "smallint");
+            getters!(common::Scaled, "dimen");
+            getters!(common::Glue, "glue");
+            getters!(texlang::types::CatCode, "catcode");
+            getters!(texlang::types::MathCode, "mathcode");
+            getters!(Vec<Token>, "toks");
+            getters!(texlang::types::Font, "font");
+            s
+        }
+        Command::Macro(m) => {
+            let mut s = format!("macro {} => ", m.doc(vm.cs_name_interner()));
+            for r in m.replacements() {
+                match r {
+                    texlang::texmacro::Replacement::Parameter(i) => s.push_str(&format!("<#{}>", i + 1)),
+                    texlang::texmacro::Replacement::Tokens(ts) => {
+                        let v: Vec<OutTok> = ts.iter().rev().map(|t| to_out(vm, *t)).collect();
+                        s.push_str(&crate::texvm::render(&v));
+                    }
+                }
+            }
+            s
+        }
+        Command::CharacterTokenAlias(v) => format!("alias of {}", crate::texvm::render(&[value_out(vm, *v)])),
+        Command::Character(c) => format!("character {:?}", c),
+        Command::MathCharacter(c) => format!("math character {:?}", c),
+        Command::Font(f) => format!("font {:?}", f),
+    }
+}
+
+fn interned_names(vm: &Vm, into: &mut BTreeSet<String>) {
+    let mut k = 1usize;
+    while let Some(name) = CsName::try_from_usize(k) {
+        match vm.cs_name_interner().resolve(name) {
+            Some(s) => into.insert(s.to_string()),
+            None => break,
+        };
+        k += 1;
+    }
+}
+
+const ACTIVE_HIGH: char = 'λ';
+
+/// Every control sequence either VM has a name for, and every active character below 128 (plus the one
+/// non-ASCII character the generator makes active), must mean the same in both VMs.
+fn sweep_commands(x: &Vm, y: &Vm) -> Result<usize, String> {
+    let mut names = BTreeSet::new();
+    interned_names(x, &mut names);
+    interned_names(y, &mut names);
+    let look = |vm: &Vm, n: &str| -> String {
+        match vm.cs_name_interner().get(n) {
+            None => "undefined".to_string(),
+            Some(k) => fingerprint(vm, vm.commands_map.get_command(&CommandRef::ControlSequence(k))),
+        }
+    };
+    for n in &names {
+        let (a, b) = (look(x, n), look(y, n));
+        if a != b {
+            return Err(format!("\\{n} is [{a}] in the reference VM and [{b}] in the deserialised VM"));
+        }
+    }
+    for c in (0u8..128).map(|c| c as char).chain(std::iter::once(ACTIVE_HIGH)) {
+        let r = CommandRef::ActiveCharacter(c);
+        let (a, b) = (fingerprint(x, x.commands_map.get_command(&r)), fingerprint(y, y.commands_map.get_command(&r)));
+        if a != b {
+            return Err(format!("active character {c:?} is [{a}] in the reference VM and [{b}] in the deserialised VM"));
+        }
+    }
+    Ok(names.len())
+}
+
+/// Make the JSON view of a component independent of VM-internal numbering: control sequence numbers become
+/// names, trace keys are dropped, and the two sequences that are written in HashMap order are sorted.
+fn canon(vm: &Vm, v: &mut serde_json::Value) {
+    use serde_json::Value as J;
+    match v {
+        J::Object(m) => {
+            m.remove("trace_key");
+            m.remove("trace_key_range");
+            if m.len() == 1 {
+                if let Some(J::Number(n)) = m.get("ControlSequence") {
+                    let name = n.as_u64().and_then(|u| CsName::try_from_usize(u as usize)).and_then(|k| vm.cs_name_interner().resolve(k)).unwrap_or("?").to_string();
+                    m.insert("ControlSequence".into(), J::String(name));
+                }
+            }
+            for (k, x) in m.iter_mut() {
+                canon(vm, x);
+                if k == "array_refs" || k == "token_traces" {
+                    if let J::Array(a) = x {
+                        a.sort_by_key(|e| e.to_string());
+                    }
+                }
+            }
+        }
+        J::Array(a) => {
+            for x in a {
+                canon(vm, x);
+            }
+        }
+        _ => {}
+    }
+}
+
+/// JSON views of every component of `StdLibState` except the three big numeric register files (compared
+/// directly) and the two components without serialised state (`repl`, `script`).
+fn state_view(vm: &Vm) -> Result<Vec<(&'static str, serde_json::Value)>, String> {
+    let s = &vm.state;
+    let mut out = vec![];
+    macro_rules! view {
+        ($f:ident) => {
+            let mut v = serde_json::to_value(&s.$f).map_err(|e| format!("the `{}` component of the state cannot be serialised to JSON: {}", stringify!($f), e))?;
+            canon(vm, &mut v);
+            out.push((stringify!($f), v));
+        };
+    }
+    view!(alloc);
+    view!(codes_cat_code);
+    view!(codes_math_code);
+    view!(conditional);
+    view!(end_line_char);
+    view!(error_mode);
+    view!(input);
+    view!(job);
+    view!(prefix);
+    view!(registers_token_list);
+    view!(time);
+    view!(tracing_macros);
+    Ok(out)
+}
+
+fn sweep_state(x: &Vm, y: &Vm) -> Result<(), String> {
+    let (vx, vy) = (state_view(x)?, state_view(y)?);
+    for ((n, a), (_, b)) in vx.iter().zip(vy.iter()) {
+        if a != b {
+            let (sa, sb) = (a.to_string(), b.to_string());
+            let p = sa.bytes().zip(sb.bytes()).take_while(|(p, q)| p == q).count();
+            let lo = p.saturating_sub(60);
+            let clip = |s: &str| s.get(lo..(p + 100).min(s.len())).unwrap_or("<non-ASCII context>").to_string();
+            return Err(format!("state component `{n}` differs: reference ...{}... deserialised ...{}...", clip(&sa), clip(&sb)));
+        }
+    }
+    let (a, b) = (x.state.registers_i32.values(), y.state.registers_i32.values());
+    if let Some(i) = (0..a.len()).find(|&i| a[i] != b[i]) {
+        return Err(format!("\\count{i} is {} in the reference VM and {} in the deserialised VM", a[i], b[i]));
+    }
+    let (a, b) = (x.state.registers_scaled.values(), y.state.registers_scaled.values());
+    if let Some(i) = (0..a.len()).find(|&i| a[i] != b[i]) {
+        return Err(format!("\\dimen{i} is {:?} in the reference VM and {:?} in the deserialised VM", a[i], b[i]));
+    }
+    let (a, b) = (x.state.registers_glue.values(), y.state.registers_glue.values());
+    if let Some(i) = (0..a.len()).find(|&i| a[i] != b[i]) {
+        return Err(format!("\\skip{i} is {:?} in the reference VM and {:?} in the deserialised VM", a[i], b[i]));
+    }
+    Ok(())
+}
+
+// ---------------------------------------------------------------------------------------------
+// Cases
+// ---------------------------------------------------------------------------------------------
+
+/// Extra state P1 may leave behind, each with observers in P2 (inside the open group and again after
+/// every group has been closed).
 #[derive(Clone, Debug, Serialize, Deserialize)]
 pub enum Extra {
     NewInt(i32),
@@ -101,6 +382,27 @@ pub enum Extra {
     ActiveLet,
     CatcodeOfLetter,
     Gdef,
+    /// interaction mode (0 errorstop, 1 scroll, 2 nonstop, 3 batch); `err` > 0: a recoverable error is
+    /// recorded first (under \batchmode, which prints nothing)
+    Mode { mode: u8, err: u8 },
+    /// a conditional opened at depth 0 right after the preamble: every group of the history is inside it
+    OuterCond(u8),
+    /// \catcode / \mathcode of a character >= 128 (the `high` map of the codes component)
+    HighCode { c: u32, cat: u8, math: u16 },
+    /// a non-ASCII active character with a definition
+    ActiveHigh,
+    /// registers far from the ones the history uses: kind 0 count, 1 dimen, 2 skip, 3 toks
+    FarReg { kind: u8, idx: u16, a: i32, b: i32, c: i32, ord: u8 },
+    /// \day \month \time
+    Time(i32, i32, i32),
+    /// \dumpFormat \tracingmacros (never positive: tracing prints to stdout), \jobname
+    JobVars(u8, i32),
+    /// the name of a built-in redefined before the checkpoint
+    RedefBuiltin(u8),
+    /// \openin stream (0..15) on seed file a / b / a missing file, `before` guarded reads in P1, `after`
+    /// guarded reads in P2 (enough to reach the end of the file), then 0 nothing, 1 \closein, 2 reopen,
+    /// 3 reopen the other file, 4 open a missing file
+    Stream { s: u8, file: u8, before: u8, after: u8, then: u8 },
 }
 
 #[derive(Clone, Debug, Serialize, Deserialize)]
@@ -109,47 +411,177 @@ pub struct CkCase {
     /// split point as a fraction of the operation count
     pub split: u16,
     pub extras: Vec<Extra>,
-    /// where among the operations of P1 the extras are placed is fixed: after them, inside the
-    /// groups P1 left open
     pub format: Format,
+    /// defining halves of the extras (allocations, first definitions) go to depth 0 right after the
+    /// preamble; only the local change stays at the end of P1
+    #[serde(default)]
+    pub hoist: bool,
+    /// deliberate fatal error as the very last thing of P2 (0 = none), see `FINAL_ERRORS`
+    #[serde(default)]
+    pub fin: u8,
+    /// second checkpoint inside P2: (fraction of the remaining operations, format)
+    #[serde(default)]
+    pub second: Option<(u16, Format)>,
+    /// JSON through `impl Deserialize for VM`
+    #[serde(default)]
+    pub via_trait: bool,
 }
 
-const SEED_A: &str = "/verif/seeds/c08a";
-const SEED_B: &str = "/verif/seeds/c08b";
+/// Definitions every P1 makes at depth 0 (targets of the deliberate final errors).
+const P0_FIXED: &str = "\\def\\vperr{\\vpundefinedcs}\\def\\vperrg{\\global\\closein}";
 
-fn render_extras(extras: &[Extra]) -> (String, String, bool, bool) {
-    let mut p1 = String::new();
-    let mut p2 = String::new();
-    let mut closers = String::new();
-    let mut has_cond = false;
-    let mut has_active = false;
-    let mut used_streams = [false; 4];
+/// (name, text): 1 undefined control sequence out of a macro defined in P1; 2 \read from the terminal
+/// (tells the interaction modes apart); 3 unmatched `}`; 4 end of input inside an assignment; 5 an error
+/// with two traced tokens, both born in P1
+const FINAL_ERRORS: [(&str, &str); 5] = [
+    ("final error: undefined cs from a P1 macro", "\\vperr"),
+    ("final error: \\read from the terminal", "\\read16 to\\vpq"),
+    ("final error: unmatched }", "}"),
+    ("final error: end of input", "\\count1="),
+    ("final error: two traced tokens from P1", "\\vperrg"),
+];
+
+const MODES: [&str; 4] = ["\\errorstopmode ", "\\scrollmode ", "\\nonstopmode ", "\\batchmode "];
+
+/// Recoverable errors (each checked to be recoverable: the run continues under \batchmode). The last
+/// three close/skip conditionals and are only used when no conditional is open.
+const RECOVERABLE: [&str; 9] = [
+    "\\count9=2147483648\\relax ",
+    "\\divide\\count9 by 0\\relax ",
+    "\\catcode`\\Q=99\\relax ",
+    "\\count40000=1\\relax ",
+    "\\dimen9=16384pt\\relax ",
+    "\\mathchardef\\vpbadmc=40000\\relax ",
+    "\\else ",
+    "\\fi ",
+    "\\or ",
+];
+
+fn clamp(v: i32) -> i32 {
+    // -2147483648 cannot be written as a TeX number
+    v.max(-2147483647)
+}
+
+#[derive(Default)]
+struct Pieces {
+    /// depth 0, right after the preamble
+    p0: String,
+    /// first thing of the extras block at the end of P1
+    first: String,
+    /// end of P1, inside the groups P1 left open
+    p1: String,
+    /// first thing of P2: observers, still inside the open groups and conditionals
+    obs: String,
+    /// close the conditionals opened in `p1`
+    closers: String,
+    /// after the history has closed every group: probes that cannot end the run
+    tail: String,
+    /// probes that are fatal if their name is undefined again (kept last)
+    tail_fatal: String,
+    /// close the conditionals opened in `p0`
+    outer_closers: String,
+    classes: Vec<&'static str>,
+    mode: Option<u8>,
+}
+
+fn render_extras(extras: &[Extra], hoist: bool, seed_dir: &str) -> Pieces {
+    let mut p = Pieces::default();
+    let mut used_streams = [false; 16];
     let mut seen: Vec<std::mem::Discriminant<Extra>> = vec![];
+    let mut n_newint = 0usize;
+    let mut n_newarr = 0usize;
+    let any_cond = extras.iter().any(|e| matches!(e, Extra::OuterCond(_)));
+    let seed = |k: u8| -> String {
+        match k % 3 {
+            0 => format!("{seed_dir}/c08a"),
+            1 => format!("{seed_dir}/c08b"),
+            _ => format!("{seed_dir}/c08missing"),
+        }
+    };
     for e in extras {
-        // each kind at most once (names are fixed)
+        // most kinds at most once (their names are fixed)
         let d = std::mem::discriminant(e);
-        if seen.contains(&d) && !matches!(e, Extra::OpenCond(_) | Extra::OpenIn(..)) {
+        let repeatable = matches!(e, Extra::OpenCond(_) | Extra::OuterCond(_) | Extra::OpenIn(..) | Extra::Stream { .. } | Extra::NewInt(_) | Extra::NewIntArray(..) | Extra::HighCode { .. } | Extra::FarReg { .. });
+        if seen.contains(&d) && !repeatable {
             continue;
         }
         seen.push(d);
         match e {
             Extra::NewInt(v) => {
-                p1.push_str(&format!("\\newInt\\vpnewint \\vpnewint={}\\relax ", v));
-                p2.push_str("\\the\\vpnewint;\\advance\\vpnewint by 1\\relax \\the\\vpnewint;");
+                if n_newint == 3 {
+                    continue;
+                }
+                let name = ["\\vpnewint", "\\vpnewintb", "\\vpnewintc"][n_newint];
+                n_newint += 1;
+                p.classes.push("extra: \\newInt");
+                if n_newint == 2 {
+                    p.classes.push("two or more \\newInt");
+                }
+                let alloc = format!("\\newInt{name} ");
+                let set = format!("{name}={}\\relax ", clamp(*v));
+                let read = format!("\\the{name};");
+                if hoist {
+                    p.p0.push_str(&alloc);
+                    p.p1.push_str(&set);
+                    p.tail.push_str(&read);
+                } else {
+                    p.p1.push_str(&alloc);
+                    p.p1.push_str(&set);
+                    p.tail.push_str(&format!("{name}=7 ;"));
+                    p.tail_fatal.push_str(&read);
+                }
+                p.obs.push_str(&format!("\\the{name};\\advance{name} by 1\\relax \\the{name};"));
             }
             Extra::NewIntArray(n, v) => {
+                if n_newarr == 2 {
+                    continue;
+                }
+                let name = ["\\vpnewarr", "\\vpnewarrb"][n_newarr];
+                n_newarr += 1;
+                p.classes.push("extra: \\newIntArray");
+                if n_newarr == 2 {
+                    p.classes.push("two \\newIntArray");
+                }
                 let n = (*n % 5) as usize + 1;
-                p1.push_str(&format!("\\newIntArray\\vpnewarr {} \\vpnewarr {}={}\\relax ", n, n - 1, v));
-                p2.push_str(&format!("\\the\\vpnewarr {};\\vpnewarr 0=3\\relax \\the\\vpnewarr 0;", n - 1));
+                let alloc = format!("\\newIntArray{name} {n} ");
+                let set = format!("{name} {}={}\\relax ", n - 1, clamp(*v));
+                let read = format!("\\the{name} {};\\the{name} 0;", n - 1);
+                if hoist {
+                    p.p0.push_str(&alloc);
+                    p.p1.push_str(&set);
+                    p.tail.push_str(&read);
+                } else {
+                    p.p1.push_str(&alloc);
+                    p.p1.push_str(&set);
+                    p.tail.push_str(&format!("{name} 0=4 ;"));
+                    p.tail_fatal.push_str(&read);
+                }
+                p.obs.push_str(&format!("\\the{name} {};{name} 0=3\\relax \\the{name} 0;", n - 1));
             }
             Extra::ParamMacro => {
-                p1.push_str("\\def\\vpmp#1.#2{[#2|#1]}");
-                p2.push_str("\\vpmp ab.c;\\vpmp{x.y}.{zz};");
+                p.classes.push("extra: parameter macro");
+                let def = "\\def\\vpmp#1.#2{[#2:#1]}";
+                if hoist {
+                    p.p0.push_str(def);
+                    p.p1.push_str("\\def\\vpmp#1.#2{(#1/#2)}");
+                } else {
+                    p.p1.push_str(def);
+                }
+                p.obs.push_str("\\vpmp ab.c;\\vpmp{x.y}.{zz};");
+                p.tail.push_str("\\vpmp ab.c;");
             }
             Extra::FreshName(k) => {
+                p.classes.push("extra: fresh name");
                 let name = format!("vpfresh{}", ["A", "Bb", "Ccc", "Dddd"][(*k % 4) as usize]);
-                p1.push_str(&format!("\\def\\{}{{Q\\{}x }}\\def\\{}x{{R}}", name, name, name));
-                p2.push_str(&format!("\\{};", name));
+                let def = format!("\\def\\{name}{{Q\\{name}x }}\\def\\{name}x{{R}}");
+                if hoist {
+                    p.p0.push_str(&def);
+                    p.p1.push_str(&format!("\\def\\{name}x{{r}}"));
+                } else {
+                    p.p1.push_str(&def);
+                }
+                p.obs.push_str(&format!("\\{name};"));
+                p.tail.push_str(&format!("\\{name};\\{name}x;"));
             }
             Extra::OpenIn(stream, n) => {
                 let s = (*stream % 4) as usize;
@@ -157,200 +589,550 @@ fn render_extras(extras: &[Extra]) -> (String, String, bool, bool) {
                     continue;
                 }
                 used_streams[s] = true;
-                let file = if s % 2 == 0 { SEED_A } else { SEED_B };
-                p1.push_str(&format!("\\openin{}={} ", s, file));
+                p.classes.push("open \\openin stream");
+                if *n % 3 >= 1 {
+                    p.classes.push("stream partially read before the checkpoint");
+                }
+                p.p1.push_str(&format!("\\openin{}={} ", s, seed(s as u8 % 2)));
                 for k in 0..(*n % 3) {
-                    p1.push_str(&format!("\\read{} to\\vpline{} ", s, ["a", "b", "c"][k as usize]));
+                    p.p1.push_str(&format!("\\read{} to\\vpline{} ", s, ["a", "b", "c"][k as usize]));
                 }
                 for k in 0..(*n % 3) {
-                    p2.push_str(&format!("\\vpline{};", ["a", "b", "c"][k as usize]));
+                    p.obs.push_str(&format!("\\vpline{};", ["a", "b", "c"][k as usize]));
                 }
-                p2.push_str(&format!("\\ifeof{} T\\else F\\fi;\\read{} to\\vplinez \\vplinez;\\ifeof{} T\\else F\\fi;", s, s, s));
+                p.obs.push_str(&format!("\\ifeof{s} T\\else F\\fi;\\read{s} to\\vplinez \\vplinez;\\ifeof{s} T\\else F\\fi;"));
+                p.tail.push_str(&format!("\\vplinez;\\ifeof{s} T\\else\\read{s} to\\vplinez \\vplinez\\fi;"));
             }
-            Extra::OpenCond(k) => {
-                has_cond = true;
-                match k % 4 {
-                    0 => {
-                        p1.push_str("\\iftrue ");
-                        closers.insert_str(0, "T\\else F\\fi;");
-                    }
+            Extra::Stream { s, file, before, after, then } => {
+                let s = (*s % 16) as usize;
+                if used_streams[s] {
+                    continue;
+                }
+                used_streams[s] = true;
+                let (before, after) = (*before % 10, *after % 10);
+                let missing = *file % 3 == 2;
+                p.classes.push(if missing { "\\openin of a missing file" } else { "open \\openin stream" });
+                if !missing && before >= 1 {
+                    p.classes.push("stream partially read before the checkpoint");
+                }
+                if !missing && before + after >= 8 {
+                    p.classes.push("stream read to the end of its file");
+                }
+                if s >= 4 {
+                    p.classes.push("stream number >= 4");
+                }
+                let l = (b'a' + s as u8) as char;
+                let name = |j: u8, side: char| format!("\\vpl{l}{side}{}", (b'a' + j) as char);
+                // every \read is guarded by \ifeof: a closed stream would read from the terminal
+                p.p1.push_str(&format!("\\openin{s}={} ", seed(*file)));
+                for j in 0..before {
+                    p.p1.push_str(&format!("\\ifeof{s} E\\else\\read{s} to{} R\\fi;", name(j, 'p')));
+                }
+                for j in 0..before {
+                    p.obs.push_str(&format!("{};", name(j, 'p')));
+                }
+                p.obs.push_str(&format!("\\ifeof{s} T\\else F\\fi;"));
+                for j in 0..after {
+                    p.obs.push_str(&format!("\\ifeof{s} E\\else\\read{s} to{} {}\\fi;", name(j, 'q'), name(j, 'q')));
+                }
+                let probe = format!("\\ifeof{s} T\\else F\\read{s} to\\vplast \\vplast\\fi;");
+                match *then % 5 {
+                    0 => {}
                     1 => {
-                        p1.push_str("\\iffalse A\\else ");
-                        closers.insert_str(0, "E\\fi;");
+                        p.classes.push("\\closein after the checkpoint");
+                        p.obs.push_str(&format!("\\closein{s} {probe}"));
                     }
-                    2 => {
-                        p1.push_str("\\ifcase 1 A\\or ");
-                        closers.insert_str(0, "B\\or C\\else D\\fi;");
-                    }
-                    _ => {
-                        p1.push_str("\\ifnum 1<2 ");
-                        closers.insert_str(0, "L\\else G\\fi;");
-                    }
+                    2 => p.obs.push_str(&format!("\\openin{s}={} {probe}", seed(*file))),
+                    3 => p.obs.push_str(&format!("\\openin{s}={} {probe}", seed(*file + 1))),
+                    _ => p.obs.push_str(&format!("\\openin{s}={seed_dir}/c08missing {probe}")),
+                }
+                p.tail.push_str(&format!("{};{};{probe}", name(0, 'p'), name(0, 'q')));
+            }
+            Extra::OpenCond(k) | Extra::OuterCond(k) => {
+                let outer = matches!(e, Extra::OuterCond(_));
+                p.classes.push(if outer { "conditional opened outside all groups" } else { "checkpoint inside a conditional" });
+                let (open, close) = match k % 4 {
+                    0 => ("\\iftrue ", "T\\else F\\fi;"),
+                    1 => ("\\iffalse A\\else ", "E\\fi;"),
+                    2 => ("\\ifcase 1 A\\or ", "B\\or C\\else D\\fi;"),
+                    _ => ("\\ifnum 1<2 ", "L\\else G\\fi;"),
+                };
+                if outer {
+                    p.p0.push_str(open);
+                    p.outer_closers.insert_str(0, close);
+                } else {
+                    p.p1.push_str(open);
+                    p.closers.insert_str(0, close);
                 }
             }
             Extra::LetPrimitive => {
-                p1.push_str("\\let\\vpmycount=\\count \\let\\vpmyfi=\\fi \\let\\vpmydef=\\def ");
-                p2.push_str("\\vpmycount 7=5\\relax \\the\\count7;\\iftrue Y\\vpmyfi;\\vpmydef\\vpz{Z}\\vpz;");
+                p.classes.push("extra: \\let of primitives");
+                p.p1.push_str("\\let\\vpmycount=\\count \\let\\vpmyfi=\\fi \\let\\vpmydef=\\def ");
+                p.obs.push_str("\\vpmycount 7=5\\relax \\the\\count7;\\iftrue Y\\vpmyfi;\\vpmydef\\vpz{Z}\\vpz;");
+                p.tail.push_str("\\vpmycount 7=6 ;\\the\\count7;\\vpmydef\\vpzb{Z}\\vpzb;");
             }
             Extra::LetChar => {
-                p1.push_str("\\let\\vpch=a\\let\\vpbg={");
-                p2.push_str("\\vpch;\\vpbg\\count9=4\\relax}\\the\\count9;");
+                p.classes.push("extra: \\let of characters");
+                p.p1.push_str("\\let\\vpch=a\\let\\vpbg={");
+                p.obs.push_str("\\vpch;\\vpbg\\count9=4\\relax}\\the\\count9;");
+                p.tail.push_str("\\vpch;");
+                p.tail_fatal.push_str("\\vpbg\\count9=5\\relax}\\the\\count9;");
             }
             Extra::MathCharDef(v) => {
-                p1.push_str(&format!("\\mathchardef\\vpmc={}\\relax ", v % 32768));
-                p2.push_str("\\the\\vpmc;");
+                p.classes.push("extra: \\mathchardef");
+                p.p1.push_str(&format!("\\mathchardef\\vpmc={}\\relax ", v % 32768));
+                p.obs.push_str("\\the\\vpmc;");
+                p.tail_fatal.push_str("\\the\\vpmc;");
             }
             Extra::ToksWithCs => {
-                p1.push_str("\\def\\vptk{K}\\toks3={\\vptk b\\vptk}");
-                p2.push_str("\\the\\toks3;");
+                p.classes.push("extra: token list holding control sequences");
+                if hoist {
+                    p.p0.push_str("\\def\\vptk{k}\\toks3={0}");
+                }
+                p.p1.push_str("\\def\\vptk{K}\\toks3={\\vptk b\\vptk}");
+                p.obs.push_str("\\the\\toks3;");
+                p.tail.push_str("\\the\\toks3;\\vptk;");
             }
             Extra::Year(v) => {
-                p1.push_str(&format!("\\year={}\\relax ", v));
-                p2.push_str("\\the\\year;");
+                p.classes.push("extra: \\year");
+                p.p1.push_str(&format!("\\year={}\\relax ", clamp(*v)));
+                p.obs.push_str("\\the\\year;");
+                p.tail.push_str("\\the\\year;");
             }
             Extra::ActiveDef(k) => {
-                has_active = true;
+                p.classes.push("active character defined");
                 let body = ["U", "VW", ""][(*k % 3) as usize];
-                p1.push_str(&format!("\\catcode`\\|=13\\relax \\def|{{{}}}", body));
-                p2.push_str("|;");
+                if hoist {
+                    p.p0.push_str("\\catcode`\\|=13\\relax \\def|{u}");
+                }
+                p.p1.push_str(&format!("\\catcode`\\|=13\\relax \\def|{{{}}}", body));
+                p.obs.push_str("|;");
+                // the history may have given `|` any category code at depth 0 (comment, invalid, ...):
+                // the bare probe goes last
+                p.tail.push_str("\\the\\catcode`\\|;");
+                p.tail_fatal.push_str("|;");
             }
             Extra::ActiveLet => {
-                has_active = true;
-                p1.push_str("\\catcode`\\!=13\\relax \\let!=\\relax \\def\\vpal{(!)}");
-                p2.push_str("\\vpal;");
+                p.classes.push("active character defined");
+                p.p1.push_str("\\catcode`\\!=13\\relax \\let!=\\relax \\def\\vpal{(!)}");
+                p.obs.push_str("\\vpal;");
+                p.tail.push_str("\\vpal;!;\\the\\catcode`\\!;");
             }
             Extra::CatcodeOfLetter => {
-                p1.push_str("\\catcode`\\Q=12\\relax \\catcode`\\@=11\\relax \\def\\vp@x{@}");
-                p2.push_str("\\the\\catcode`\\Q;\\vp@x;");
+                p.classes.push("extra: \\catcode of letters");
+                p.p1.push_str("\\catcode`\\Q=12\\relax \\catcode`\\@=11\\relax \\def\\vp@x{@}");
+                p.obs.push_str("\\the\\catcode`\\Q;\\vp@x;");
+                p.tail.push_str("\\the\\catcode`\\Q;\\the\\catcode`\\@;\\vp@x;");
             }
             Extra::Gdef => {
-                p1.push_str("\\gdef\\vpg{G}\\def\\vpl{L}");
-                p2.push_str("\\vpg;\\vpl;");
+                p.classes.push("extra: \\gdef next to \\def");
+                if hoist {
+                    p.p0.push_str("\\def\\vpg{g}\\def\\vpl{l}");
+                }
+                p.p1.push_str("\\gdef\\vpg{G}\\def\\vpl{L}");
+                p.obs.push_str("\\vpg;\\vpl;");
+                p.tail.push_str("\\vpg;\\vpl;");
             }
-        }
-    }
-    // observers first (inside the open conditionals' live branch), then close the conditionals
-    p2.push_str(&closers);
-    (p1, p2, has_cond, has_active)
-}
-
-fn oracle(ctx: &Ctx, c: &CkCase, formats: &[Format], case: &mut Case) -> Verdict {
-    let nops = c.program.ops.iter().filter(|o| !matches!(o, c01::Op::Assign { t: c01::Tgt::Font, .. } | c01::Op::Read(c01::Tgt::Font))).count();
-    let k = (c.split as usize * (nops + 1)) >> 16;
-    let (built, split_pos) = c01::build_opts(&c.program, c01::Deviations::default(), Some(k), true);
-    let (x1, x2, has_cond, has_active) = render_extras(&c.extras);
-    // P1 = operations before the split + extras (statements complete, input exhausted at the end)
-    let p1_body = format!("{}{}", &built.text[..split_pos], x1);
-    let p1 = format!("{}%", p1_body);
-    // P2 = observers of the extras, then the remaining operations, closers and reads
-    let p2 = format!("{}{}", x2, &built.text[split_pos..]);
-    case.note = Some(format!("P1: {}  ||  P2: {}", p1, p2));
-    // depth at the checkpoint
-    let mut depth = 0i32;
-    for o in c.program.ops.iter().take(k) {
-        match o {
-            c01::Op::Begin => depth += 1,
-            c01::Op::End => depth = (depth - 1).max(0),
-            _ => {}
-        }
-    }
-    let saved = depth >= 1 && c.program.ops.iter().take(k).any(|o| matches!(o, c01::Op::Assign { .. }));
-    case.class_if(depth >= 1, "checkpoint inside a group");
-    case.class_if(depth >= 3, "checkpoint at depth>=3");
-    case.class_if(has_cond, "checkpoint inside a conditional");
-    case.class_if(has_active, "active character defined");
-    case.class_if(c.extras.iter().any(|e| matches!(e, Extra::OpenIn(..))), "open \\openin stream");
-    let nontrivial = saved || has_cond || has_active || !c.extras.is_empty();
-
-    // Arm A: one VM, no serialisation.
-    let mut vm_a = Box::new(vm::VM::<StdLibState>::new());
-    let a1 = run(&mut vm_a, "p1.tex", &p1);
-    if a1.error.is_some() {
-        // P1 itself fails (e.g. a listed scoping deviation does not matter here): nothing to checkpoint
-        return Verdict::Skip("P1 ends in an error");
-    }
-    let a2 = run(&mut vm_a, "p2.tex", &p2);
-
-    for format in formats {
-        let mut vm_b = Box::new(vm::VM::<StdLibState>::new());
-        let b1 = run(&mut vm_b, "p1.tex", &p1);
-        if b1 != a1 {
-            return Verdict::Fail(format!("non-deterministic run of P1: {:?} vs {:?}", a1, b1));
-        }
-        let (vm_c, size) = match crate::engine::panics::catch(|| checkpoint(&vm_b, *format)) {
-            Ok(Ok(v)) => v,
-            Ok(Err(e)) => return Verdict::Fail(format!("{:?}: {}\nP1: {}", format, e, p1)),
-            Err(p) => return Verdict::Fail(format!("{:?}: panic while (de)serialising at {}: {}\nP1: {}", format, p.site(), p.message, p1)),
-        };
-        let _ = size;
-        let mut vm_c = Box::new(vm_c);
-        let b2 = run(&mut vm_c, "p2.tex", &p2);
-        if b2 != a2 {
-            if has_active && ctx.known("flag:serde_drops_active_chars") && b2.error.as_deref().map(|e| e.contains("undefined")).unwrap_or(false) {
-                // must agree up to the first use of an active character
-                if a2.out.starts_with(&b2.out) {
-                    return Verdict::Known("flag:serde_drops_active_chars".into());
+            Extra::Mode { mode, err } => {
+                let mode = *mode % 4;
+                p.mode = Some(mode);
+                p.classes.push(["mode: errorstop", "mode: scroll", "mode: nonstop", "mode: batch"][mode as usize]);
+                if *err > 0 {
+                    p.classes.push("recoverable error recorded before the checkpoint");
+                    let n = if any_cond { RECOVERABLE.len() - 3 } else { RECOVERABLE.len() };
+                    p.first.push_str("\\batchmode ");
+                    p.first.push_str(RECOVERABLE[(*err as usize - 1) % n]);
+                }
+                p.first.push_str(MODES[mode as usize]);
+                if mode == 3 {
+                    // recoverable errors after the checkpoint: recorded, the run continues
+                    p.obs.push_str("\\count9=2147483648\\relax R;\\the\\count9;\\divide\\count9 by 0\\relax S;");
                 }
             }
-            return Verdict::Fail(format!(
-                "{:?}: the deserialised VM behaves differently on P2\nP1: {}\nP2: {}\nwithout checkpoint: {} error={:?}\nwith checkpoint:    {} error={:?}",
-                format,
-                p1,
-                p2,
-                crate::texvm::render(&a2.out),
-                a2.error,
-                crate::texvm::render(&b2.out),
-                b2.error
-            ));
+            Extra::HighCode { c, cat, math } => {
+                p.classes.push("extra: \\catcode/\\mathcode of a character >= 128");
+                // not the two non-ASCII characters that occur in the generated text
+                let c = if *c == ACTIVE_HIGH as u32 || *c == 0xe9 { *c + 1 } else { *c };
+                let text = format!("\\the\\catcode{c};\\the\\mathcode{c};");
+                p.p1.push_str(&format!("\\catcode{c}={}\\relax \\mathcode{c}={}\\relax ", cat % 16, math % 32768));
+                p.obs.push_str(&text);
+                p.tail.push_str(&text);
+            }
+            Extra::ActiveHigh => {
+                p.classes.push("extra: non-ASCII active character");
+                let c = ACTIVE_HIGH as u32;
+                p.p1.push_str(&format!("\\catcode{c}=13\\relax \\def{ACTIVE_HIGH}{{HL}}"));
+                p.obs.push_str(&format!("{ACTIVE_HIGH};"));
+                p.tail.push_str(&format!("{ACTIVE_HIGH};\\the\\catcode{c};"));
+            }
+            Extra::FarReg { kind, idx, a, b, c, ord } => {
+                const EDGES: [u16; 10] = [32767, 32766, 16384, 4096, 256, 255, 128, 127, 10, 3];
+                let idx = if *idx >= 32768 { EDGES[(*idx % 10) as usize] } else { *idx };
+                let unit = |o: u8| ["sp", "fil", "fill", "filll"][(o % 4) as usize];
+                // |x| <= max_dimen in sp; infinite components in whole units below 16384
+                let amount = |x: i32, o: u8| -> String {
+                    if o % 4 == 0 {
+                        format!("{}sp", x % 1073741824)
+                    } else {
+                        format!("{}.{}{}", (x >> 8) % 16384, (x & 255) as u32 * 390625 / 100000, unit(o))
+                    }
+                };
+                let (set, read) = match kind % 4 {
+                    0 => {
+                        p.classes.push("extra: far \\count");
+                        (format!("\\count{idx}={}\\relax ", clamp(*a)), format!("\\the\\count{idx};"))
+                    }
+                    1 => {
+                        p.classes.push("extra: far \\dimen (negative/fractional)");
+                        (format!("\\dimen{idx}={}sp\\relax ", a % 1073741824), format!("\\the\\dimen{idx};"))
+                    }
+                    2 => {
+                        p.classes.push("extra: far \\skip (shrink, infinite orders)");
+                        (format!("\\skip{idx}={}sp plus {} minus {}\\relax ", a % 1073741824, amount(*b, *ord), amount(*c, *ord / 4)), format!("\\the\\skip{idx};"))
+                    }
+                    _ => {
+                        p.classes.push("extra: far \\toks (space, #, braces, active, non-ASCII)");
+                        let idx = idx % 256;
+                        let body = ["a b", "x#y##", "{n{e}s}t", "~x~", "\u{e9} \u{3bb}", "\\vptkq \\relax", "", " "][(*a as u32 % 8) as usize];
+                        (format!("\\toks{idx}={{{body}}}"), format!("\\the\\toks{idx};"))
+                    }
+                };
+                p.p1.push_str(&set);
+                p.obs.push_str(&read);
+                p.tail.push_str(&read);
+            }
+            Extra::Time(d, m, t) => {
+                p.classes.push("extra: \\day \\month \\time");
+                p.p1.push_str(&format!("\\day={}\\relax \\month={}\\relax \\time={}\\relax ", clamp(*d), clamp(*m), clamp(*t)));
+                p.obs.push_str("\\the\\day;\\the\\month;\\the\\time;");
+                p.tail.push_str("\\the\\day;\\the\\month;\\the\\time;");
+            }
+            Extra::JobVars(f, v) => {
+                // (\dumpValidate belongs to RedefBuiltin)
+                p.classes.push("extra: \\dumpFormat \\tracingmacros \\jobname");
+                let neg = -((*v as i64).abs() % 5);
+                p.p1.push_str(&format!("\\dumpFormat={}\\relax \\tracingmacros={}\\relax ", f % 3, neg));
+                let text = "\\the\\dumpFormat;\\the\\tracingmacros;\\jobname;";
+                p.obs.push_str(text);
+                p.tail.push_str(text);
+            }
+            Extra::RedefBuiltin(k) => {
+                p.classes.push("built-in name redefined before the checkpoint");
+                match k % 5 {
+                    0 => {
+                        p.p1.push_str("\\def\\sleep{S}");
+                        p.obs.push_str("\\sleep;");
+                        p.tail.push_str("\\let\\vpsl=\\sleep ");
+                    }
+                    1 => {
+                        p.p1.push_str("\\let\\divide=\\multiply ");
+                        let text = "\\count9=3 \\divide\\count9 by 2 \\the\\count9;";
+                        p.obs.push_str(text);
+                        p.tail.push_str(text);
+                    }
+                    2 => {
+                        // the save stack names the variable by its built-in name while that name is a macro
+                        p.p1.push_str("\\dumpValidate=-2\\relax \\let\\vpdv=\\dumpValidate \\def\\dumpValidate{D}");
+                        p.obs.push_str("\\dumpValidate;\\the\\vpdv;");
+                        p.tail.push_str("\\let\\vpdw=\\dumpValidate ");
+                        p.tail_fatal.push_str("\\the\\vpdv;");
+                    }
+                    3 => {
+                        p.p1.push_str("\\let\\ifodd=\\iffalse \\let\\noexpand=\\relax ");
+                        let text = "\\ifodd 1 A\\else B\\fi;\\noexpand\\ma;";
+                        p.obs.push_str(text);
+                        p.tail.push_str(text);
+                    }
+                    _ => {
+                        p.p1.push_str("\\let\\vpea=\\expandafter \\let\\expandafter=\\month \\def\\long{G}");
+                        p.obs.push_str("\\vpea\\mb\\ma;\\long;");
+                        p.tail.push_str("\\long;");
+                        p.tail_fatal.push_str("\\the\\expandafter;");
+                    }
+                }
+            }
         }
     }
-    // Arm C: the concatenated program in a fresh VM.
-    let mut vm_d = Box::new(vm::VM::<StdLibState>::new());
-    let d = run(&mut vm_d, "p.tex", &format!("{}{}", p1_body, p2));
-    let mut joined = a1.out.clone();
-    joined.extend(a2.out.iter().cloned());
-    if d.out != joined || d.error != a2.error {
-        return Verdict::Fail(format!("running P1 P2 as one source differs from running them one after the other\nP1: {}\nP2: {}\none source: {} error={:?}\ntwo runs:   {} error={:?}", p1, p2, crate::texvm::render(&d.out), d.error, crate::texvm::render(&joined), a2.error));
+    p
+}
+
+struct Plan {
+    /// the sources, each ending in `%`; `parts[0]` is P1, the rest P2 (cut at the second checkpoint)
+    parts: Vec<String>,
+    /// the same text as one source
+    joined: String,
+    depth: i32,
+    saved: bool,
+    pieces: Pieces,
+    fin: Option<usize>,
+}
+
+fn plan(c: &CkCase, seed_dir: &str) -> Plan {
+    let nops = c.program.ops.iter().filter(|o| !matches!(o, c01::Op::Assign { t: c01::Tgt::Font, .. } | c01::Op::Read(c01::Tgt::Font))).count();
+    let k = (c.split as usize * (nops + 1)) >> 16;
+    let dev = c01::Deviations::default();
+    let (built, pre_end) = c01::build_opts(&c.program, dev, Some(0), true);
+    let (_, split1) = c01::build_opts(&c.program, dev, Some(k), true);
+    let text = built.text.strip_suffix('%').unwrap_or(&built.text);
+    let split1 = split1.clamp(pre_end, text.len());
+    let pieces = render_extras(&c.extras, c.hoist, seed_dir);
+    let mode = pieces.mode;
+    let p1 = format!("{}{}{}{}{}{}", &text[..pre_end], P0_FIXED, pieces.p0, &text[pre_end..split1], pieces.first, pieces.p1);
+    let fin = if c.fin == 0 { None } else { Some((c.fin as usize - 1) % FINAL_ERRORS.len()) };
+    // After the history: re-observe the extras at depth 0, close the outer conditionals, names first
+    // defined after the checkpoint, then the probes that may be fatal, then the deliberate error.
+    // In scroll and nonstop mode a recoverable error would be printed to stdout: the probes (an
+    // undefined name after \the is a recoverable error) run in errorstop mode there, and not at all
+    // when the final error is the one that observes the terminal of the mode.
+    let quiet = matches!(mode, Some(1) | Some(2));
+    let mut end = String::new();
+    if !(quiet && fin == Some(1)) {
+        if quiet {
+            end.push_str("\\errorstopmode ");
+        }
+        end.push_str(&pieces.tail);
+        end.push_str(&pieces.outer_closers);
+        end.push_str("\\def\\vpnewa{1}\\def\\vpnewb{2\\vpnewa}\\vpnewb;");
+        end.push_str(&pieces.tail_fatal);
+    }
+    if let Some(f) = fin {
+        end.push_str(FINAL_ERRORS[f].1);
+    }
+    let mut parts = vec![p1];
+    let head = format!("{}{}", pieces.obs, pieces.closers);
+    match c.second {
+        None => parts.push(format!("{}{}{}", head, &text[split1..], end)),
+        Some((frac, _)) => {
+            let k2 = k.min(nops) + ((frac as usize * (nops - k.min(nops) + 1)) >> 16);
+            let (_, split2) = c01::build_opts(&c.program, dev, Some(k2), true);
+            let split2 = split2.clamp(split1, text.len());
+            parts.push(format!("{}{}", head, &text[split1..split2]));
+            parts.push(format!("{}{}", &text[split2..], end));
+        }
+    }
+    let joined = format!("{}%", parts.concat());
+    for p in &mut parts {
+        p.push('%');
+    }
+    let body = &text[pre_end..split1];
+    let depth = body.matches('{').count() as i32 - body.matches('}').count() as i32;
+    let saved = depth >= 1 && c.program.ops.iter().take(k).any(|o| matches!(o, c01::Op::Assign { .. }));
+    Plan { parts, joined, depth, saved, pieces, fin }
+}
+
+fn describe(plan: &Plan) -> String {
+    plan.parts.iter().enumerate().map(|(i, p)| format!("P{}: {}", i + 1, p)).collect::<Vec<_>>().join("\n")
+}
+
+fn oracle(c: &CkCase, formats: &[Format], seed_dir: &str, case: &mut Case) -> Verdict {
+    let plan = plan(c, seed_dir);
+    let text = describe(&plan);
+    case.note = Some(text.replace('\n', "  ||  "));
+    let px = &plan.pieces;
+    case.class_if(plan.depth >= 1, "checkpoint inside a group");
+    case.class_if(plan.depth >= 3, "checkpoint at depth>=3");
+    case.class_if(plan.saved, "open group with saved values");
+    for cl in &px.classes {
+        if !case.classes.contains(cl) {
+            case.class(cl);
+        }
+    }
+    case.class_if(c.hoist && !c.extras.is_empty(), "definitions at depth 0, local change in the open group");
+    case.class_if(plan.depth >= 1 && !c.extras.is_empty(), "extras re-observed after their group closed");
+    case.class_if(c.second.is_some(), "two checkpoints in one history");
+    case.class_if(c.via_trait && formats.contains(&Format::Json), "JSON via Deserialize for VM");
+    if formats.len() == 1 {
+        case.class(match formats[0] {
+            Format::Json => "format: JSON",
+            Format::MessagePack => "format: MessagePack",
+            Format::Bincode => "format: bincode",
+        });
+    }
+    let nontrivial = plan.saved || !c.extras.is_empty();
+
+    // Arm A: one VM, no serialisation.
+    let mut vm_a = new_vm();
+    let mut a: Vec<Run> = vec![];
+    for (i, part) in plan.parts.iter().enumerate() {
+        let r = run(&mut vm_a, &format!("p{}.tex", i + 1), part);
+        let failed = r.error.is_some();
+        a.push(r);
+        if failed {
+            break;
+        }
+    }
+    if a[0].error.is_some() {
+        // P1 is error-free by construction; `run_prop` fails the check if this happens more than rarely
+        return Verdict::Skip("P1 ends in an error");
+    }
+    let last = a.last().unwrap();
+    if let (Some(f), Some(title)) = (plan.fin, &last.error) {
+        let expected = ["undefined control sequence", "failed to read from the terminal", "there is no group to end", "Unexpected end of input", "this command cannot be prefixed"][f];
+        case.class_if(title.starts_with(expected), FINAL_ERRORS[f].0);
+    }
+    case.class_if(a.iter().any(|r| r.out.iter().any(|t| matches!(t, OutTok::Cs(n) if n.starts_with("undefined:")))), "a name is undefined again after its group");
+
+    for (fi, format) in formats.iter().enumerate() {
+        let mut vm_b = new_vm();
+        let b1 = run(&mut vm_b, "p1.tex", &plan.parts[0]);
+        if b1 != a[0] {
+            return Verdict::Fail(format!("non-deterministic run of P1: {:?} vs {:?}", a[0], b1));
+        }
+        // `cur` is the VM about to be serialised; `a[i]` the reference for the part run after it
+        let mut cur = vm_b;
+        for i in 1..a.len() {
+            // second checkpoint: the case's own second format (quick tier), the next of the list (thorough)
+            let fmt = if i == 1 {
+                *format
+            } else if formats.len() > 1 {
+                formats[(fi + 1) % formats.len()]
+            } else {
+                c.second.map(|s| s.1).unwrap_or(*format)
+            };
+            let which = if i == 1 { "first" } else { "second" };
+            let mut next = match crate::engine::panics::catch(|| checkpoint(&cur, fmt, c.via_trait)) {
+                Ok(Ok((v, _size))) => Box::new(v),
+                Ok(Err(e)) => return Verdict::Fail(format!("{:?}, {} checkpoint: {}\n{}", fmt, which, e, text)),
+                Err(p) => return Verdict::Fail(format!("{:?}, {} checkpoint: panic while (de)serialising at {}: {}\n{}", fmt, which, p.site(), p.message, text)),
+            };
+            install_terminal(&mut next);
+            // the deserialised VM against the VM it was made from
+            if let Err(m) = sweep_commands(&cur, &next).and_then(|_| sweep_state(&cur, &next)) {
+                return Verdict::Fail(format!("{:?}, right after the {} checkpoint: {}\n{}", fmt, which, m, text));
+            }
+            let b = run(&mut next, &format!("p{}.tex", i + 1), &plan.parts[i]);
+            if b != a[i] {
+                return Verdict::Fail(format!(
+                    "{:?}: the VM deserialised at the {} checkpoint behaves differently on P{}\n{}\nwithout checkpoint: {} error={:?}\nwith checkpoint:    {} error={:?}\nerror without checkpoint:\n{}\nerror with checkpoint:\n{}",
+                    fmt,
+                    which,
+                    i + 1,
+                    text,
+                    crate::texvm::render(&a[i].out),
+                    a[i].error,
+                    crate::texvm::render(&b.out),
+                    b.error,
+                    a[i].detail.as_deref().unwrap_or("-"),
+                    b.detail.as_deref().unwrap_or("-")
+                ));
+            }
+            cur = next;
+        }
+        // final values: every visible command and the whole state
+        if let Err(m) = sweep_commands(&vm_a, &cur).and_then(|_| sweep_state(&vm_a, &cur)) {
+            return Verdict::Fail(format!("{:?}: after the whole history: {}\n{}", format, m, text));
+        }
+    }
+    case.class_if(a.len() == 3, "second checkpoint reached");
+
+    // Arm C (a check of the harness's own splitting, not of serialisation): the concatenated program
+    // in a fresh VM gives the same output and the same error title.
+    let mut vm_d = new_vm();
+    let d = run(&mut vm_d, "p.tex", &plan.joined);
+    let joined: Vec<OutTok> = a.iter().flat_map(|r| r.out.iter().cloned()).collect();
+    if d.out != joined || d.error != last.error {
+        return Verdict::Fail(format!(
+            "[harness self-check, no serialisation involved] running the parts as one source differs from running them one after the other\n{}\none source: {} error={:?}\nseparately: {} error={:?}",
+            text,
+            crate::texvm::render(&d.out),
+            d.error,
+            crate::texvm::render(&joined),
+            last.error
+        ));
     }
     Verdict::pass(nontrivial)
 }
 
+fn int_strategy() -> impl Strategy<Value = i32> {
+    prop_oneof![3 => any::<i32>(), 1 => Just(i32::MIN), 1 => Just(i32::MAX), 1 => Just(-2147483647), 2 => -10i32..10]
+}
+
 fn extra_strategy() -> impl Strategy<Value = Extra> {
+    let high_char = prop_oneof![128u32..0x800, 0x800u32..0xD800, 0xE000u32..0x10FFFF, Just(0x10FFFEu32), Just(128u32)];
     prop_oneof![
-        any::<i32>().prop_map(Extra::NewInt),
-        (any::<u8>(), any::<i32>()).prop_map(|(a, b)| Extra::NewIntArray(a, b)),
-        Just(Extra::ParamMacro),
-        (0u8..4).prop_map(Extra::FreshName),
-        (0u8..4, 0u8..3).prop_map(|(a, b)| Extra::OpenIn(a, b)),
-        (0u8..4).prop_map(Extra::OpenCond),
-        (0u8..4).prop_map(Extra::OpenCond),
-        Just(Extra::LetPrimitive),
-        Just(Extra::LetChar),
-        any::<u16>().prop_map(Extra::MathCharDef),
-        Just(Extra::ToksWithCs),
-        (1i32..3000).prop_map(Extra::Year),
-        (0u8..3).prop_map(Extra::ActiveDef),
-        Just(Extra::ActiveLet),
-        Just(Extra::CatcodeOfLetter),
-        Just(Extra::Gdef),
+        2 => int_strategy().prop_map(Extra::NewInt),
+        2 => (any::<u8>(), int_strategy()).prop_map(|(a, b)| Extra::NewIntArray(a, b)),
+        1 => Just(Extra::ParamMacro),
+        1 => (0u8..4).prop_map(Extra::FreshName),
+        1 => (0u8..4, 0u8..3).prop_map(|(a, b)| Extra::OpenIn(a, b)),
+        3 => (0u8..4).prop_map(Extra::OpenCond),
+        1 => (0u8..4).prop_map(Extra::OuterCond),
+        1 => Just(Extra::LetPrimitive),
+        1 => Just(Extra::LetChar),
+        1 => any::<u16>().prop_map(Extra::MathCharDef),
+        1 => Just(Extra::ToksWithCs),
+        1 => int_strategy().prop_map(Extra::Year),
+        1 => (0u8..3).prop_map(Extra::ActiveDef),
+        1 => Just(Extra::ActiveLet),
+        1 => Just(Extra::CatcodeOfLetter),
+        1 => Just(Extra::Gdef),
+        3 => (0u8..4, 0u8..10).prop_map(|(mode, err)| Extra::Mode { mode, err }),
+        2 => (high_char, 0u8..16, any::<u16>()).prop_map(|(c, cat, math)| Extra::HighCode { c, cat, math }),
+        1 => Just(Extra::ActiveHigh),
+        4 => (0u8..4, any::<u16>(), int_strategy(), any::<i32>(), any::<i32>(), any::<u8>()).prop_map(|(kind, idx, a, b, c, ord)| Extra::FarReg { kind, idx, a, b, c, ord }),
+        1 => (int_strategy(), int_strategy(), int_strategy()).prop_map(|(a, b, c)| Extra::Time(a, b, c)),
+        1 => (0u8..3, int_strategy()).prop_map(|(a, b)| Extra::JobVars(a, b)),
+        2 => (0u8..5).prop_map(Extra::RedefBuiltin),
+        3 => (0u8..16, 0u8..3, 0u8..10, 0u8..10, 0u8..5).prop_map(|(s, file, before, after, then)| Extra::Stream { s, file, before, after, then }),
     ]
 }
 
+fn format_strategy() -> impl Strategy<Value = Format> {
+    prop_oneof![Just(Format::Json), Just(Format::MessagePack), Just(Format::Bincode)]
+}
+
 fn case_strategy() -> impl Strategy<Value = CkCase> {
-    (c01::program_strategy(30), any::<u16>(), proptest::collection::vec(extra_strategy(), 0..5), prop_oneof![Just(Format::Json), Just(Format::MessagePack), Just(Format::Bincode)]).prop_map(|(program, split, extras, format)| CkCase { program, split, extras, format })
+    (
+        c01::program_strategy(30),
+        any::<u16>(),
+        proptest::collection::vec(extra_strategy(), 0..6),
+        format_strategy(),
+        any::<bool>(),
+        prop_oneof![3 => Just(0u8), 2 => 1u8..=5],
+        prop_oneof![2 => Just(None), 1 => (any::<u16>(), format_strategy()).prop_map(Some)],
+        any::<bool>(),
+    )
+        .prop_map(|(program, split, extras, format, hoist, fin, second, via_trait)| CkCase { program, split, extras, format, hoist, fin, second, via_trait })
 }
 
 pub fn run_prop(ctx: &Ctx) {
-    ctx.rule("cases = (P1, P2, format): P1 is a prefix of a C01-style history (groups left open, registers, aliases, macros incl. active ~, catcode/mathcode, \\endlinechar, \\globaldefs) plus extras (\\newInt/\\newIntArray, parameter macros, fresh names, open \\openin streams, open conditionals, \\let of primitives and characters, \\mathchardef, token lists holding control sequences, active-character definitions); P2 observes the extras, continues the history, closes every group and conditional and reads every target. The same VM<StdLibState> continued without a checkpoint is the reference for the serialised+deserialised VM (token-exact output and error title), and the concatenated program in a fresh VM must agree too. non-trivial = checkpoint inside a group with saved values, inside a conditional, or with an extra alive; distinct by (P1,P2) text");
-    ctx.assume("StdLibState with its default built-in commands; no terminal input, no error-recovery modes (they print to stdout); font probes are not part of StdLibState and are dropped from the histories");
-    ctx.assume("seed files /verif/seeds/c08a.tex and c08b.tex are read through the real file system (StdLibState has no pluggable file system)");
+    ctx.rule("cases = (P1, P2 [cut once more], formats): P1 is a prefix of a C01-style history (groups left open, registers, aliases, macros incl. active ~, catcode/mathcode, \\endlinechar, \\globaldefs) plus extras placed in the innermost open group, their defining halves optionally at depth 0 (\\newInt/\\newIntArray (several), parameter macros, fresh names, \\openin streams 0..15 read partially / to the end / missing, conditionals left open inside and outside all groups, \\let of primitives and characters, \\mathchardef, token lists holding control sequences, active-character definitions incl. a non-ASCII one, interaction modes with recorded recoverable errors, codes of characters >= 128, registers up to \\count32767/\\toks255 with negative, fractional and infinite glue, \\day/\\month/\\time/\\year, \\dumpFormat/\\dumpValidate/\\tracingmacros, names of built-ins redefined); P2 observes the extras inside the open group, continues the history (optionally through a second checkpoint in another format), closes every group and conditional, reads every target, observes the extras AGAIN at depth 0 (undefined names are recorded, not fatal), defines new names and optionally ends in a deliberate fatal error. The same VM<StdLibState> continued without a checkpoint is the reference for the serialised+deserialised VM: token-exact output, the fatal error in detail (title, kind, traces of all tokens, stack trace, notes except the hash-order dependent suggestion), and Rust-level sweeps right after every checkpoint and at the end (fingerprint of the command behind every interned name and active character; JSON view of every state component incl. recorded errors; all 3x32768 numeric registers). non-trivial = checkpoint inside a group with saved values or with an extra alive; distinct by the text of the parts");
+    ctx.assume("StdLibState with its default built-in commands; terminal = an exhausted mock terminal installed by the host in every arm (it is #[serde(skip)], not part of the checkpoint); recoverable errors are only raised in errorstop mode (fatal) and batch mode (recorded silently) because scroll/nonstop mode print them to stdout, which carries the harness protocol: those two modes are observed through the state sweep and the terminal they select; \\tracingmacros is never positive (prints to stdout); font probes are not part of StdLibState and are dropped from the histories");
+    ctx.assume("seed files <verif dir>/seeds/c08a.tex and c08b.tex are read through the real file system (StdLibState has no pluggable file system); the date of every fresh VM is set to a fixed value (the default reads the clock)");
+    ctx.assume("both VMs of a comparison live in the same process (function pointers and tags of built-ins are compared as such); arm C (the parts as one source) only checks the harness's own splitting");
+    let seed_dir = ctx.verif_dir.join("seeds").to_string_lossy().to_string();
+    if !seed_dir.chars().all(|c| c.is_ascii_alphanumeric() || "/_.-".contains(c)) {
+        ctx.fail_external("checkpoint", &seed_dir, "the seeds directory has a path that cannot be written as a TeX file name");
+        return;
+    }
+    for f in ["c08a.tex", "c08b.tex"] {
+        if !std::path::Path::new(&seed_dir).join(f).is_file() {
+            ctx.fail_external("checkpoint", &f, &format!("seed file {seed_dir}/{f} is missing: the \\openin cases would silently test nothing"));
+            return;
+        }
+    }
+    if std::path::Path::new(&seed_dir).join("c08missing.tex").exists() {
+        ctx.fail_external("checkpoint", &seed_dir, "seeds/c08missing.tex must not exist");
+        return;
+    }
     let all = [Format::Json, Format::MessagePack, Format::Bincode];
     match ctx.tier {
         Tier::Quick => {
-            run_generated(ctx, "checkpoint", 8_000, case_strategy, |c: &CkCase, case| oracle(ctx, c, &[c.format], case));
+            run_generated(ctx, "checkpoint", 8_000, case_strategy, |c: &CkCase, case| oracle(c, &[c.format], &seed_dir, case));
         }
         Tier::Thorough => {
-            run_generated(ctx, "checkpoint", 60_000, case_strategy, |c: &CkCase, case| oracle(ctx, c, &all, case));
+            run_generated(ctx, "checkpoint", 60_000, case_strategy, |c: &CkCase, case| oracle(c, &all, &seed_dir, case));
+        }
+    }
+    // P1 is error-free by construction: more than a handful of skipped cases means the generator (or the
+    // C01 generator it builds on) drifted, and coverage would disappear silently.
+    if ctx.is_generate() {
+        let (skipped, evaluations) = {
+            let st = ctx.stats.lock().unwrap();
+            st.get("checkpoint").map(|s| (s.skipped.values().sum::<u64>(), s.evaluations)).unwrap_or((0, 0))
+        };
+        if evaluations >= 1000 && skipped * 100 > evaluations {
+            ctx.fail_external("checkpoint", &skipped, &format!("{skipped} of {evaluations} cases were skipped because P1 ended in an error (allowed: 1%): the generator no longer produces error-free prefixes"));
         }
     }
 }
